@@ -10,7 +10,7 @@ only = sys.argv[2:]
 res = {}
 for d in sorted(os.listdir("/verif/seeded")):
     p = f"/verif/seeded/{d}"
-    if not os.path.isdir(p) or (only and d not in only):
+    if not os.path.isdir(p) or not os.path.exists(f"{p}/meta.json") or (only and d not in only):
         continue
     meta = json.load(open(f"{p}/meta.json"))
     prop = meta.get("property_checked", meta["property"])     # (a few changes only touch what another property's check sees)
